@@ -508,6 +508,25 @@ def execute(trace, ctx=None):
                 x_, y_ = ref.adjust(t), ref.adjust(t2)
                 if not (ref.t0 <= x_ <= ref.t1 and ref.t0 <= y_ <= ref.t1):
                     continue            # the adjusted endpoint falls off the calendar: nothing is promised
+
+                def search_stays_inside(d0):
+                    # adjusting looks at the days after d0 (and, across a month end, before it): if that search has to leave the
+                    # calendar's range - where a listed holiday may or may not count - nothing is promised either
+                    d_ = d0
+                    while not ref.is_bday(d_):
+                        d_ += DAY
+                        if d_ > ref.t1:
+                            return False
+                    if d_.month != d0.month:
+                        d_ = d0
+                        while not ref.is_bday(d_):
+                            d_ -= DAY
+                            if d_ < ref.t0:
+                                return False
+                    return True
+                if not (search_stays_inside(t) and search_stays_inside(t2)):
+                    res.stat('edge-listing-skipped(search leaves the range)')
+                    continue
                 exp = ref.drange(t, t2)
                 try:
                     got = cal.drange(t, t2, '1b')
